@@ -167,9 +167,12 @@ type sfCall struct {
 // Thread safety: Protected by sfMu mutex for map operations. Each sfCall uses
 // a WaitGroup to coordinate between the worker and waiters.
 func singleflightDo(hash uint64, fn func() (*MJMLNode, error)) (*MJMLNode, error) {
+	verifYield("start")
 	sfMutex.Lock()
+	verifYield("locked")
 	if c, ok := sfCalls[hash]; ok {
 		sfMutex.Unlock()
+		verifYield("waiting")
 		c.wg.Wait()
 		return c.res, c.err
 	}
@@ -177,10 +180,14 @@ func singleflightDo(hash uint64, fn func() (*MJMLNode, error)) (*MJMLNode, error
 	c.wg.Add(1)
 	sfCalls[hash] = c
 	sfMutex.Unlock()
+	verifYield("lead")
 
 	defer func() {
+		verifYield("assigned")
 		c.wg.Done()
+		verifYield("signalled")
 		sfMutex.Lock()
+		verifYield("deleting")
 		delete(sfCalls, hash)
 		sfMutex.Unlock()
 	}()
@@ -198,6 +205,9 @@ func singleflightDo(hash uint64, fn func() (*MJMLNode, error)) (*MJMLNode, error
 // Thread safety: Reading hashSeed is safe after templateHashSeedOnce.Do() completes.
 // The seed is set once and never modified.
 func hashTemplate(s string) uint64 {
+	if h, ok := verifHashOverride(s); ok {
+		return h
+	}
 	templateHashSeedOnce.Do(func() {
 		hashSeed = maphash.MakeSeed()
 	})
@@ -272,6 +282,8 @@ func startASTCacheCleanup() {
 	ctx, cancel := context.WithCancel(context.Background())
 	cleanupCancel = cancel
 	go func() {
+		verifYield("cl.spawn")
+		defer verifYield("cl.exit")
 		// Read cleanup interval with proper synchronization
 		cacheConfigMutex.RLock()
 		interval := astCacheCleanupInterval
@@ -290,6 +302,7 @@ func startASTCacheCleanup() {
 					}
 					return true
 				})
+				verifYield("cl.swept")
 			case <-ctx.Done():
 				return
 			}
